@@ -1,0 +1,29 @@
+//! Verification hooks, only compiled with `--cfg virtio_drivers_verif`.
+//!
+//! These are additive observation points used by an external model-checking harness. They have no
+//! effect on normal builds.
+
+unsafe extern "Rust" {
+    /// Called once per iteration of each busy-wait loop in the crate, so that a single-threaded
+    /// co-simulation can run the device model while the driver waits. Must be defined by the
+    /// harness linking this crate with `--cfg virtio_drivers_verif`.
+    fn __virtio_drivers_verif_spin(site: u32);
+}
+
+/// Busy-wait loop in `VirtQueue::add_notify_wait_pop`.
+pub const SPIN_QUEUE_WAIT_POP: u32 = 1;
+/// Busy-wait loop in `VirtIONetRaw::receive_wait`.
+pub const SPIN_NET_RECEIVE_WAIT: u32 = 2;
+/// Busy-wait loop in `VirtIOSound::pcm_xfer`.
+pub const SPIN_SOUND_PCM_XFER: u32 = 3;
+/// Busy-wait loop in `VirtIOConsole::wait_for_receive`.
+pub const SPIN_CONSOLE_WAIT_RECEIVE: u32 = 4;
+/// Busy-wait loop in `VsockConnectionManager::wait_for_event`.
+pub const SPIN_VSOCK_WAIT_EVENT: u32 = 5;
+
+/// Reports one iteration of the busy-wait loop identified by `site` to the harness.
+#[inline]
+pub fn spin(site: u32) {
+    // SAFETY: The harness defines this symbol as a safe Rust function with this signature.
+    unsafe { __virtio_drivers_verif_spin(site) }
+}
